@@ -839,11 +839,26 @@ public:
     void judge(const Plan& plan, const Config& cfg, const LoggerEntry& le, bool mt, Scheduler& sch)
     {
         (void)plan;
-        (void)cfg;
         NoFault nf;
         if (g_static_init_statements)
         {
             p_static_init++;
+            if (cfg.prop == "C10" && LOGSIM_MIN <= 2)
+            {
+                // the program configured `error` before main(): an info statement is rejected and
+                // must not evaluate its callable nor reach the formatter
+                int calls = 0, before = g_static_init_deliveries;
+                StaticCfgL::info() << "rejected by a threshold set during static initialisation " << [&calls]() -> std::string {
+                    ++calls;
+                    return "evaluated";
+                };
+                int delivered = g_static_init_deliveries - before;
+                g_static_init_deliveries = before;
+                if (calls || delivered)
+                    return flag("C10/callable-called-when-rejected", "static-initialisation threshold-configured-early", -1,
+                                "a statement below the threshold that was set during static initialisation " +
+                                    std::string(calls ? "evaluated its callable" : "reached the formatter"));
+            }
             if (StaticCfgFilter::min_severity() != nl::severity_level::error)
                 return flag("C05/spurious", "static-initialisation threshold-configured-early", -1,
                             "a runtime threshold set during static initialisation was lost again (the filter accepts what the program configured away)");
